@@ -20,7 +20,7 @@ except ImportError:
 def _fit_linearized(backtransfm, lin_x, lin_y, lin_yerr):
     if len(lin_x) != len(lin_y):
         raise ValueError("k and T needs to be of equal length.")
-    if lin_yerr is not None:
+    if hasattr(lin_yerr, "__len__"):  # a scalar (1) means: unweighted
         if len(lin_yerr) != len(lin_y):
             raise ValueError("kerr and T needs to be of equal length.")
     lin_p, lin_vcv, lin_r2 = least_squares(lin_x, lin_y, lin_yerr)
